@@ -82,7 +82,14 @@ def invariant(t, seen, what, phase=0):
                 bad("index", "index(%r,%s)=%r, position %d" %
                     (i, axis, t.index(i, axis), k))
         cur = set(ids)
-        for i in seen - cur:
+        near = set()
+        if ids:
+            longest = max(ids, key=len)
+            # near misses of a current ID are unknown too (fixed-width ID
+            # arrays must not clip a query into a known ID)
+            near = {longest + "2", longest + " ", longest[:-1],
+                    longest.swapcase(), " " + longest} - cur
+        for i in sorted((seen | near) - cur):
             if t.exists(i, axis=axis):
                 bad("stale-id", "%r is not a current %s id but exists() is "
                     "True" % (i, axis))
